@@ -3,14 +3,7 @@
 import json, os, sys
 ROOT = os.path.dirname(os.path.dirname(os.path.abspath(__file__)))
 
-# id -> (level, technique, text, note, design_ref)
-CHECKS = {
- "C01": ("exploration",
-         "TLA+ reference semantics (FGACore.Chk) evaluated by TLC over traces recorded from the real Check engines (trace validation)",
-         "Random stratified models/tuple sets/requests are run through the real Server.Check (thorough: also LocalChecker forced to each strategy); every recorded answer is judged by TLC against the Kleene least-fixpoint operator of spec/core/FGACore.tla. Exploration is the right level: the input space is unbounded and the oracle is an independent executable specification.",
-         "Trusted: TLC, the JSON rendering of models/tuples by the harness generator, the memory datastore. Requests beyond the depth margin are skipped, not judged.",
-         "DESIGN.md §4 C01"),
-}
+CHECKS = {k: tuple(v) for k, v in json.load(open(os.path.join(ROOT, "tools", "checks.json"))).items()}
 NOT_APPLICABLE = {
 }
 PENDING_REASON = "check not built yet in this round (see DESIGN.md §10 build order); will be claimed once its quick and thorough tiers run clean"
